@@ -86,8 +86,9 @@ class TypeScriptMagicNumberAnalyzer(TypeScriptBaseAnalyzer):  # thailint: ignore
         """
         text = self.extract_node_text(node)
         try:
-            # Try int first
-            if "." not in text and "e" not in text.lower():
+            # Try int first (radix-prefixed literals may contain the hex digit "e")
+            lowered = text.lower()
+            if lowered.startswith(("0x", "0b", "0o")) or ("." not in text and "e" not in lowered):
                 return int(text, 0)  # Handles hex, octal, binary
             # Otherwise float
             return float(text)
